@@ -35,7 +35,9 @@
 -/
 import RosuModel.Props.C04DecodedObjects
 import RosuModel.Props.C12Exact
+import RosuModel.Lemmas.DecodedNodeInv
 set_option linter.unusedSectionVars false
+set_option linter.unusedSimpArgs false
 namespace Rosu.C04
 open Rosu Scalar Encode EncodeLines RtTiming DecodedObj
 
@@ -217,9 +219,6 @@ end Stored
 
 section Collected
 variable {F P : Type} [Scalar F] [Scalar P] [Cvt P F] [Trig F] [Trig P]
-
-/-- every custom bank of a sample list is at most `B`. -/
-def CustomLe (B : Int) (l : List HitSampleInfo) : Prop := ∀ x ∈ l, x.customSampleBank ≤ B
 
 theorem foldl_custom_le (B : Int) (rest : List HitSampleInfo) (init : Int) (hi : init ≤ B) (hr : CustomLe B rest) :
     rest.foldl (fun acc x => if x.customSampleBank > acc then x.customSampleBank else acc) init ≤ B := by
@@ -500,5 +499,178 @@ theorem collectedTimes_of_sliders (E : EndTimeLaws F) (bs : List UInt8) (st : Be
       (fun s hk => hsl ⟨s, hk⟩) b r hr p hpr
 
 end Collected
+
+/-! ## 3. sortedness, and 4. `RepTimingMap` of decoded maps -/
+
+section Main
+variable {F P : Type} [Scalar F] [Scalar P] [Cvt P F] [Trig F] [Trig P] {RF : F → Prop} {RP : P → Prop}
+
+theorem addSample_sorted' {cp : ControlPoints F} (h : C13.Sorted cp) (p : SamplePoint F) : C13.Sorted (cp.addSample p) :=
+  C13.add_sorted_sample h p
+
+theorem addCollected_sorted {cp : ControlPoints F} (h : C13.Sorted cp) (l : List (SamplePoint F)) :
+    C13.Sorted (addCollected cp l) := by
+  cases l with
+  | nil => exact h
+  | cons first rest =>
+    have gen : ∀ (rest : List (SamplePoint F)) (acc : ControlPoints F × SamplePoint F), C13.Sorted acc.1 →
+        C13.Sorted ((rest.foldl (fun (acc : ControlPoints F × SamplePoint F) s =>
+          if !s.isRedundant acc.2 then (acc.1.addSample s, s) else acc) acc).1) := by
+      intro rest
+      induction rest with
+      | nil => intro acc h; exact h
+      | cons x xs ih =>
+        intro acc h
+        rw [List.foldl_cons]
+        apply ih
+        split
+        · exact C13.add_sorted_sample h x
+        · exact h
+    exact gen rest _ (C13.add_sorted_sample h first)
+
+/-- **decoded_collected_sorted** (no law, no residual): the control points the encoder collects from a decoded map — the
+map's own plus the objects' sample points — are strictly sorted by `total_cmp` key in all four lists (C13: every point
+enters through `add`). `RepTimingMap` asks nothing of the order; finding F22 (distinct stored times within EPSILON) is a
+matter of the re-decoded COUNT, not of acceptance. -/
+theorem decoded_collected_sorted (bs : List UInt8) (st : BeatmapState F P) (m : Beatmap F P)
+    (h1 : decodeBytes beatmapDecoder bs = .ok st) (h2 : st.finish = .ok m) (cp : ControlPoints F)
+    (hc : collectSamples m = .ok cp) : C13.Sorted cp := by
+  obtain ⟨ls, hst, _⟩ := DecodedInv.decodeBytes_lines _ bs st h1
+  have hs := (decoded_control_points_in_limits ls m (by rw [← hst]; exact h2)).1
+  unfold collectSamples at hc
+  cases hca : collectAll m m.hitObjects [] with
+  | error e => simp [hca, bind, Except.bind] at hc
+  | ok pts =>
+    simp only [hca, bind, Except.bind, pure, Except.pure, Except.ok.injEq] at hc
+    subst hc
+    exact addCollected_sorted hs _
+
+/-- **the custom bank of every collected sample point is within `i32`** (no law, no residual): it is a stored sample
+point's, or the maximum over an object's own samples (`DecodedObj.decoded_objOk`) or over one of a slider's node lists
+(`DecodedObj.decoded_nodesOk`). -/
+theorem decoded_collected_custom (bs : List UInt8) (st : BeatmapState F P) (m : Beatmap F P)
+    (h1 : decodeBytes beatmapDecoder bs = .ok st) (h2 : st.finish = .ok m) (cp : ControlPoints F)
+    (hc : collectSamples m = .ok cp) : ∀ s ∈ cp.samplePoints, s.customSampleBank ≤ i32Max := by
+  obtain ⟨ls, hst, _⟩ := DecodedInv.decodeBytes_lines _ bs st h1
+  intro s hs
+  rcases collected_point_origin m cp hc s hs with h | ⟨_, _, _, o, ho, ⟨samples, time, hmem, horig⟩, _⟩
+  · exact ((decoded_control_points_in_limits ls m (by rw [← hst]; exact h2)).2.2.2.2 s h).2.2
+  · apply (collectSample_mem hmem).2
+    rcases horig with rfl | ⟨s', hk, hns⟩
+    · exact fun x hx => ((decoded_objOk bs st m h1 h2 o ho).samples x hx).custom.2
+    · have := decoded_nodesOk bs st m h1 h2 o ho
+      rw [NodeOk, hk] at this
+      exact this samples hns
+
+/-- the full statement (no residual on the collected times) — FALSE of the model: a slider whose computed end time leaves
+the parse limit (`collected_time_over_limit`, toy scalar). -/
+def decoded_repTimingMap_statement (F P : Type) [Scalar F] [Scalar P] [Cvt P F] [Trig F] [Trig P] (RF : F → Prop) : Prop :=
+  ∀ (bs : List UInt8) (st : BeatmapState F P) (m : Beatmap F P), decodeBytes beatmapDecoder bs = .ok st →
+    st.finish = .ok m → RepTimingMap RF m
+
+/-- **decoded_repTimingMap_partial** — `RtTiming.RepTimingMap` of every decoded map (any bytes), under
+* the NaN / clamp facts `C12.NanLaws`, `C12.TpClampLaws` and the closed facts `TimingConsts` (theorems / kernel facts of the
+  IEEE instance),
+* the codec law `LimitRep RF` (theorem of the IEEE codec),
+* the arithmetic law `SvLaws` (`−100 / v` for `v` in the clamp range),
+* the residual `CollectedTimesInLimit m`: every collected time is a number within the parse limit.
+Partial because of the last item; everything else of `RepTimingMap` is derived from the decoder. -/
+theorem decoded_repTimingMap_partial (N : C12.NanLaws F) (C : C12.TpClampLaws F) (K : TimingConsts F)
+    (LR : DecodedInv.LimitRep RF) (SV : SvLaws F RF) (bs : List UInt8) (st : BeatmapState F P) (m : Beatmap F P)
+    (h1 : decodeBytes beatmapDecoder bs = .ok st) (h2 : st.finish = .ok m) (hct : CollectedTimesInLimit m) :
+    RepTimingMap RF m := by
+  have S := decoded_stored_points_rep N C K LR SV bs st m h1 h2
+  refine ⟨S.sig, S.sv _, S.timing, S.difficulty, S.effect, ?_⟩
+  intro cp hc s hs
+  have hcu := decoded_collected_custom bs st m h1 h2 cp hc s hs
+  rcases collected_point_origin m cp hc s hs with h | ⟨pts, hp, hsp, _⟩
+  · exact ⟨(S.samples s h).1, (S.samples s h).2.1, hcu⟩
+  · have ht := hct pts hp s hsp
+    exact ⟨LR _ ht, ht, hcu⟩
+
+/-- **timing_block_shape_decoded** — `timing_block_shape` for decoded maps. -/
+theorem timing_block_shape_decoded (LF : CodecLaws F RF) (N : C12.NanLaws F) (C : C12.TpClampLaws F) (K : TimingConsts F)
+    (LR : DecodedInv.LimitRep RF) (SV : SvLaws F RF) (bs : List UInt8) (st : BeatmapState F P) (m : Beatmap F P)
+    (h1 : decodeBytes beatmapDecoder bs = .ok st) (h2 : st.finish = .ok m) (hct : CollectedTimesInLimit m)
+    (t : Str) (h : encodeTimingPoints m = .ok t) :
+    ∃ T, t = unlines (str "[TimingPoints]" :: T) ∧ RtFile.ListBlockShape T :=
+  timing_block_shape LF m (decoded_repTimingMap_partial N C K LR SV bs st m h1 h2 hct) t h
+
+/-- **timing_lines_accepted_decoded** — `timing_lines_accepted` with `RepTimingMap` discharged for decoded maps: decode any
+bytes to `m`; if every collected time is within the parse limit, every line of the `[TimingPoints]` block the encoder writes
+is accepted by `parse_timing_points` in any decoder state and applied as exactly the values written. -/
+theorem timing_lines_accepted_decoded (LF : CodecLaws F RF) (N : C12.NanLaws F) (C : C12.TpClampLaws F)
+    (K : TimingConsts F) (LR : DecodedInv.LimitRep RF) (SV : SvLaws F RF) (bs : List UInt8) (st : BeatmapState F P)
+    (m : Beatmap F P) (h1 : decodeBytes beatmapDecoder bs = .ok st) (h2 : st.finish = .ok m)
+    (hct : CollectedTimesInLimit m) (t : Str) (h : encodeTimingPoints m = .ok t) :
+    ∃ cp, collectSamples m = .ok cp ∧ t = unlines (str "[TimingPoints]" :: (mapEntries m cp).map Entry.line) ∧
+      (∀ e ∈ mapEntries m cp, ∀ st : TimingPointsState F P,
+        parseTimingPoints st (trimEnd e.line) = (.ok (), applyTpLine st (e.read st.general.defaultSampleBank))) ∧
+      ∀ st : TimingPointsState F P,
+        Accepts (fun s l => ((parseTimingPoints s l).2, (parseTimingPoints s l).1.isOk)) st
+          (((mapEntries m cp).map Entry.line).map trimEnd) :=
+  timing_lines_accepted LF m (decoded_repTimingMap_partial N C K LR SV bs st m h1 h2 hct) t h
+
+/-- the laws about the timing block, bundled. -/
+structure TimingLaws (F : Type) [Scalar F] (RF : F → Prop) : Prop where
+  nan : C12.NanLaws F
+  clamp : C12.TpClampLaws F
+  consts : TimingConsts F
+  sv : SvLaws F RF
+
+/-- **decoded_repMap** — `RepMap` of a decoded map with NO `Rep*` hypothesis: the record sections from the `Decoded`
+invariant (`ConstFacts`, `LimitRep`, F16 `NoDoubleSlash`), the objects from their residuals (F17 / F20 / F21), the collected
+control points from `TimingLaws` and the residual `CollectedTimesInLimit`. -/
+theorem decoded_repMap (C : DecodedInv.ConstFacts F P) (LRP : DecodedInv.LimitRep RP) (L : ObjLaws F P RF RP)
+    (D : DurLaws F RF) (LC : CtrlLaws F P RP) (T : TimingLaws F RF)
+    (bs : List UInt8) (st : BeatmapState F P) (m : Beatmap F P) (h1 : decodeBytes beatmapDecoder bs = .ok st)
+    (h2 : st.finish = .ok m) (hds : DecodedInv.NoDoubleSlash m) (hres : ∀ h ∈ m.hitObjects, ObjResidual RF h)
+    (hct : CollectedTimesInLimit m) : RepMap RF RP m :=
+  decoded_repMap_partial C LRP L D LC bs st m h1 h2 hds
+    (decoded_repTimingMap_partial T.nan T.clamp T.consts L.time T.sv bs st m h1 h2 hct) hres
+
+open C11 FileRt in
+/-- **encoded_file_accepted_decoded** — the file-level C04 statement for decoded maps with no `Rep*` hypothesis left:
+decode any bytes to `m`, encode it to `t`. Under the codec laws (`MapLaws`, `ConstFacts`, `LimitRep`, `ObjLaws`, `CtrlLaws`),
+the arithmetic laws (`DurLaws`, `TimingLaws`) and the findings' predicates — F16 `NoDoubleSlash`, the object residuals
+(F17 / F20 / F21: `ObjResidual`), and `CollectedTimesInLimit` (finite collected times) — `t` is the version line plus the
+eight blocks, every decoder reading it back makes exactly the calls `recordCalls m T H`, every call is accepted by the
+`Beatmap` decoder, and the counts come back. -/
+theorem encoded_file_accepted_decoded (ML : MapLaws F P RF RP) (C : DecodedInv.ConstFacts F P)
+    (LRP : DecodedInv.LimitRep RP) (L : ObjLaws F P RF RP) (D : DurLaws F RF) (LC : CtrlLaws F P RP) (T : TimingLaws F RF)
+    (bs : List UInt8) (st : BeatmapState F P) (m : Beatmap F P) (h1 : decodeBytes beatmapDecoder bs = .ok st)
+    (h2 : st.finish = .ok m) (hds : DecodedInv.NoDoubleSlash m)
+    (hres : ∀ h ∈ m.hitObjects, ObjResidual RF h) (hct : CollectedTimesInLimit m) (t : Str) (h : encode m = .ok t) :
+    ∃ (cp : ControlPoints F) (T H : List Str),
+      collectSamples m = .ok cp ∧ T = (mapEntries m cp).map Entry.line ∧
+      encodeTimingPoints m = .ok (unlines (str "[TimingPoints]" :: T)) ∧
+      encodeHitObjects m = .ok (unlines (str "[HitObjects]" :: H)) ∧
+      RtFile.ListBlockShape T ∧ RtFile.ListBlockShape H ∧ H.length = m.hitObjects.length ∧
+      t = unlines (RtFile.fileLines m.formatVersion (RtGeneral.generalLines m.general (RtGeneral.sampleSetOf m.controlPoints))
+        (RtEditor.editorLines m.editor) (RtMetadata.metadataLines m.metadata) (RtDifficulty.difficultyLines m.difficulty)
+        (RtEvents.eventLines m.events) T (RtColours.colourLines m.colors) H) ∧
+      (∀ (σ : Type) (Dc : LineDecoder σ),
+        decodeBytes Dc (utf8Encode t) = .ok (runCalls Dc (Dc.create m.formatVersion) (recordCalls m T H))) ∧
+      decodeBytes recorder (utf8Encode t) = .ok { version := m.formatVersion, calls := (recordCalls m T H).reverse } ∧
+      CallsAccepted (BeatmapState.create m.formatVersion : BeatmapState F P) (recordCalls m T H) ∧
+      ∃ st' : BeatmapState F P, decodeBytes beatmapDecoder (utf8Encode t) = .ok st' ∧
+        st'.hitObjects.core.hitObjects.length = m.hitObjects.length ∧
+        st'.hitObjects.events.breaks.length = m.events.breaks.length ∧
+        st'.colors.customComboColors.length = m.colors.customComboColors.length ∧
+        st'.colors.customColors.length = m.colors.customColors.length ∧
+        st'.hitObjects.timingPoints = C12.runStrs { (TimingPointsState.create : TimingPointsState F P) with
+          general := RtGeneral.preservedGeneral m.general (RtGeneral.sampleSetOf m.controlPoints) } (T.map trimEnd) ∧
+        (T.map trimEnd).length = (mapEntries m cp).length :=
+  encoded_file_accepted ML m (decoded_repMap C LRP L D LC T bs st m h1 h2 hds hres hct) t h
+
+/-- the same with the residual restricted to SLIDERS (`collectedTimes_of_sliders`: circles, spinners and holds cannot
+violate it under `DurLaws`). -/
+theorem decoded_repTimingMap_of_sliders (N : C12.NanLaws F) (C : C12.TpClampLaws F) (K : TimingConsts F)
+    (LR : DecodedInv.LimitRep RF) (SV : SvLaws F RF) (E : EndTimeLaws F) (bs : List UInt8) (st : BeatmapState F P)
+    (m : Beatmap F P) (h1 : decodeBytes beatmapDecoder bs = .ok st) (h2 : st.finish = .ok m)
+    (hs : SliderTimesInLimit m) : RepTimingMap RF m :=
+  decoded_repTimingMap_partial N C K LR SV bs st m h1 h2 (collectedTimes_of_sliders E bs st m h1 h2 hs)
+
+end Main
 
 end Rosu.C04
